@@ -5,7 +5,7 @@ import numpy as np
 from .. import core, gen
 
 ID = 'C15'
-FOUNDATIONS = ['harness.foundation.cscalar']   # ties of the C++ helper functions the model rests on (generated from their text)
+FOUNDATIONS = ['harness.foundation.cscalar', 'harness.foundation.pybody']   # ties of the C++ helper functions the model rests on (generated from their text)
 LEVEL = json.loads((core.VERIF / 'harness' / 'props' / 'meta' / 'C15.json').read_text())['category'] \
     if (core.VERIF / 'harness' / 'props' / 'meta' / 'C15.json').exists() else 'other'
 RULE = ('corpus; exhaustive scope: every binary image of every shape r x c with r<=3,c<=5 / r<=5,c<=3 and 4x4 '
